@@ -1151,6 +1151,12 @@ func (s *Store) streamBackupDB(ctx context.Context, name string, remotePos ltx.P
 	// If we haven't written anything yet then try to send data.
 	localPos := db.Pos()
 	if localPos.IsZero() {
+		// The backup service is the data authority: if it already holds data for a
+		// database we have not written to yet, it is ahead of us and we must adopt it.
+		if !remotePos.IsZero() {
+			slog.Warn("restoring from backup", slog.String("name", name), slog.String("reason", "local-empty-remote-ahead"))
+			return ltx.Pos{}, ltx.NewPosMismatchError(remotePos)
+		}
 		return localPos, nil
 	}
 
